@@ -12,6 +12,11 @@ TV:      random target types (structs, maps, untyped, raw values, nested mixes; 
          The marshal side (no duplicate names in output, invalid UTF-8 refused) is C02's check:
          its generator includes colliding text-marshaler keys, NaN keys and invalid strings.
          Names resolving to the same struct field (case-insensitive) are covered by C15's check.
+Replay:  spec/Arshal.tla!Unmarshal decides duplicates where the library does: by field for
+         structs (also through case-insensitive matching), by decoded key for maps ("0" and "-0"),
+         by name for unknown members and untyped values; with AllowDuplicateNames the later member
+         is decoded into what the earlier one left.  Every (type, pre-existing value, input) of a
+         bounded universe x {default, ad, ci, ad+ci} with predicted outcome and value.
 """
 
 
@@ -25,5 +30,9 @@ def run(ctx):
     ctx.tlc("MC_C01", name="MC_C01_dup", capture_lines=False,
             consts={"Alphabet": set(B('614"\\:0},aA')), "Prefix": B('{"a":0,"\\u00'), "MaxLen": 5 if ctx.quick else 7, "MaxD": 1, "EmitCases": False, "CheckTwin": True},
             invariants=("TwinInv", "MonoInv"))
+    # names that are equal only after conversion: "0"/"-0" for integer keys, case variants for
+    # case-insensitive fields; pre-populated maps; AllowDuplicateNames merges instead
+    import arshalfam as af
+    af.run_model(ctx, "dups", af.DUPFAM, {"u"}, "C08", uopts=af.DUP_UOPTS, D=1 if ctx.quick else 2)
     ctx.cov["distinct_nontrivial"] = n
     ctx.cov["rule"] = "random (type, text with one injected ambiguity) pairs"
